@@ -248,6 +248,8 @@ class Controller:
         self.cancel_info = {}
         self.max_pending = 0
         self.post_end_released = 0
+        self.dfs_prefix = None      # mode 'dfs': list of option indices to take at successive quiescent points
+        self.dfs_record = []        # (index taken, number of options) per quiescent point
 
     # -- hooks ----------------------------------------------------------------------------
     def on_new_gate(self, g):
@@ -356,6 +358,12 @@ class Controller:
 
     def _pick(self, opts, busy):
         rng = self.rng
+        if self.mode == 'dfs':
+            i = len(self.dfs_record)
+            idx = self.dfs_prefix[i] if self.dfs_prefix and i < len(self.dfs_prefix) else 0
+            idx = min(idx, len(opts) - 1)
+            self.dfs_record.append((idx, len(opts)))
+            return [opts[idx]]
         if self.mode == 'fifo':
             return [opts[0]]
         if self.mode == 'lifo':
